@@ -214,6 +214,8 @@ public:
 
   double getSecondOrderDerivative(const std::string& variable1, const std::string& variable2) const
   {
+    // The same variable twice is the (non-mixed) second derivative, with its T'' term:
+    if (variable1 == variable2) return getSecondOrderDerivative(variable1);
     return std::dynamic_pointer_cast<const SecondOrderDerivable>(function_)->getSecondOrderDerivative(variable1, variable2)
            * dynamic_cast<const TransformedParameter&>(getParameters().parameter(variable1)).getFirstOrderDerivative()
            * dynamic_cast<const TransformedParameter&>(getParameters().parameter(variable2)).getFirstOrderDerivative();
